@@ -303,9 +303,19 @@ def run_check(pid: str, tier: str, seed: int, nproc: int | None = None,
     # ---- replay and classify
     violations, known_hits, unreproduced = [], [], []
     seen = set()
-    # largest configurations first: small ones are the most likely to be
-    # degenerate on real LAPACK (e.g. symmetric 2x2 eigenvector matrices)
-    ordered = sorted(failures, key=lambda cf: -len(cfg_key(cf[0])))
+    # round-robin over distinct (harness, obligation) groups, larger
+    # configurations first inside a group: small ones are the most likely to
+    # be degenerate on real LAPACK (e.g. symmetric 2x2 eigenvector matrices)
+    groups: dict = {}
+    for cf in failures:
+        groups.setdefault((cf[0].get('harness'), cf[1]['name']), []).append(cf)
+    for g in groups.values():
+        g.sort(key=lambda cf: -len(cfg_key(cf[0])))
+    ordered = []
+    while any(groups.values()):
+        for k in list(groups):
+            if groups[k]:
+                ordered.append(groups[k].pop(0))
     budget = 14
     for cfg, f in ordered:
         key = (cfg.get('harness'), f['name'], cfg_key({k: v for k, v in cfg.items() if not k.startswith('_')}))
